@@ -15,7 +15,7 @@ Definition pinned_add_kv (key value : Z) (c : container) : container :=
   let c2 := if cexcl c && negb (is_nil keys)
             then fold_left (fun c' k => do_remove_key k c') keys c else c in
   mkC (cexcl c2) (mset value (getl value (cvals c2) ++ [key]) (cvals c2))
-      (mset key value (cmap c2)) (cnotes c2) (clast c2).
+      (mset key value (cmap c2)) (cnotes c2) (clast c2) true (csnap c2).
 
 Definition pinned_c_apply (c : container) (e : lev) : container :=
   match e with
@@ -72,19 +72,44 @@ Example reload_changed_value_fixed :
   c_view (c_run (new_container false) [LAdd 1 1; LAdd 1 2]) = [2].
 Proof. vm_compute. split; reflexivity. Qed.
 
+(* ------------------------------------------------------------------ the getValues cache *)
+(* a plausible "optimisation" (seeded regression / mutation M5): addKv marks the snapshot
+   dirty only when the value is not served yet.  Wrong since F3's fix: a key that MOVES to
+   an already served value may take its old value out of the view *)
+Definition lazy_add_kv (key value : Z) (c : container) : container :=
+  let r := add_kv key value c in
+  mkC (cexcl r) (cvals r) (cmap r) (cnotes r) (clast r)
+      (if is_nil (getl value (cvals c)) then true else cdirty c) (csnap r).
+
+Definition lazy_c_apply (c : container) (e : lev) : container :=
+  match e with
+  | LAdd k v => notify (lazy_add_kv k v c)
+  | LDel k => on_delete k c
+  end.
+
+Theorem lazy_dirty_snapshot_refuted :
+  exists log, let c := fold_left lazy_c_apply log (new_container false) in
+              c_values c = [2; 1] /\ c_view c = [2] /\ clast c = [2; 1].
+Proof. exists [LAdd 1 1; LAdd 2 2; LAdd 1 2]. vm_compute. repeat split; reflexivity. Qed.
+
 (* ------------------------------------------------------------------ kube: boundary of kube_view_exact *)
 (* Outside the informer discipline the handler is NOT exact (it unions on OnAdd and
    subtracts on OnDelete): an OnAdd carrying an object that has LOST an address since the
    explicit Update() of kubeBuilder.Build keeps the lost address until the next OnUpdate.
    (In kubeBuilder this needs an endpoint to vanish between the Get and the informer's
    first List; see notes/C13.md, "limits".) *)
+Definition union_kadd (o : kobj) (s : kstate) : kstate :=
+  let '(n, ch) := kadd_all (ips o) (kend s) false in
+  let s' := mkK n (kcount s) (klast s) in if ch then knotify s' else s'.
+
+(* Update({1,2}) (kubeBuilder.Build's explicit Get+Update), then the informer's first List
+   delivers OnAdd({1}) because address 2 vanished in between: with the union the vanished
+   address stays published; with "OnAdd replaces" (pending/C13-kube-onadd-replace.diff) not *)
 Theorem kube_add_of_shrunk_object_refuted :
-  exists l, ~ kwf_run [] l /\ klast (krun kinit l) = [1; 2] /\ ktruth l = [1].
-Proof.
-  exists [KUpdate (mkObj 1 [[1; 2]]); KAdd (mkObj 2 [[1]])]. split; [|split; reflexivity].
-  cbn. intros [_ [H _]]. specialize (H 2 (or_intror (or_introl eq_refl))). cbn in H.
-  destruct H as [H|[]]. discriminate.
-Qed.
+  klast (union_kadd (mkObj 2 [[1]]) (k_update (mkObj 1 [[1; 2]]) kinit)) = [1; 2] /\
+  ktruth [KUpdate (mkObj 1 [[1; 2]]); KAdd (mkObj 2 [[1]])] = [1] /\
+  klast (k_update (mkObj 2 [[1]]) (k_update (mkObj 1 [[1; 2]]) kinit)) = [1].
+Proof. vm_compute. repeat split; reflexivity. Qed.
 
 (* an OnUpdate whose two objects carry the same resource version is ignored even when
    the addresses differ (excluded by [kwf]: equal versions mean equal content) *)
